@@ -809,8 +809,10 @@ def t6(ctx):
     fn = mod.func('treespec_is_leaf')
     py_strict = py_non = None
     for s in fn.body:
-        if isinstance(s, ast.If) and is_name(s.test, 'strict') and isinstance(s.body[0], ast.Return):
-            py_strict = _py_bool_expr(s.body[0].value)
+        if isinstance(s, ast.If) and is_name(s.test, 'strict'):
+            rs = [x for x in s.body if isinstance(x, ast.Return)]
+            if len(rs) == 1 and all(isinstance(x, (ast.Return, ast.Pass)) for x in s.body):
+                py_strict = _py_bool_expr(rs[0].value)
         elif isinstance(s, ast.Return):
             py_non = _py_bool_expr(s.value)
     ctx.check('treespec_is_leaf/strict', py_strict == strict_f,
